@@ -41,6 +41,11 @@ CLAIMS = {
  "C11": claim("Proved: a call addressed to collection c leaves the whole Coll value of every other collection unchanged (single-row entry points "
               "and Update loops), and posts to no feed of another collection; validated on the real code by re-reading every key of every "
               "collection after every operation. DropDataStore / re-creation and views are not modelled yet (partial)."),
+ "C14": claim("Proved for every reachable state (all write paths, touches, PreserveExpiry, WithMeta, sweeps, purge, reopen): if any stored "
+              "document has expiry T the expiry manager's timer is armed for a time <= T; the sweep deletes only due keys and its Delete "
+              "yields a tombstone with a deletion event; stored expiry = absolute(exp) / preserved / cleared per entry point. That the Go "
+              "timer goroutine fires within seconds of the deadline is assumed; a real-time slice (2 s expiries, real clock) exercises it.",
+              note="Partial: timer latency is a runtime assumption."),
  "C17": claim("Proved: every single-row entry point either changes no row or raises the addressed key's revSeqNo by exactly one (1 for a key "
               "without a row), live and backfill events and the virtual xattrs report the stored number. Compound calls via correspondence + monitor."),
 }
